@@ -1,6 +1,6 @@
 (* C14 - diagnostics point at the offending construct in the user's own file.
    Property theorems only; proofs live in RegionProofs.v. *)
-From HclV Require SpanParserSpec SpanParserProofs DiagSpec DiagProofs SpanBuildSpec SpanBuildProofs ParseDiagSpec ParseDiagProofs Generated Build.
+From HclV Require SpanParserSpec SpanParserProofs DiagSpec DiagProofs SpanBuildSpec SpanBuildProofs ParseDiagSpec ParseDiagProofs FullDiagSpec FullDiagProofs Generated Build.
 From HclV Require Import Base Yo Region RegionSpec RegionProofs RegionMultiSpec RegionMultiProofs.
 From HclV Require LexLocSpec LexLocProofs.
 Open Scope list_scope.
@@ -354,3 +354,42 @@ Proof.
   split; [exact ParseDiagProofs.diag_invalid_wire_width_complete_holds | exact ParseDiagProofs.diag_invalid_constant_complete_holds].
 Qed.
 Print Assumptions C14_grammar_diagnostics_underline_the_offending_construct.
+
+(* ---- the complete diagnostics with all their fields (FullDiag*.v) ---------------------------- *)
+(* forgetting the extra fields gives exactly the spanned builder / checker (hence, by the theorems
+   above, build_program / check): same acceptance, same program, same (kind, names, spans) list *)
+Theorem C14_full_diagnostics_erase_to_the_spanned_builder :
+  FullDiagSpec.stmt_check_full_erases_to_sp /\ FullDiagSpec.stmt_eval_full_erases_to_sp /\
+  FullDiagSpec.stmt_full_erases_to_sp /\ FullDiagSpec.stmt_full_erases_to_build.
+Proof.
+  split; [exact FullDiagProofs.check_full_erases_to_sp_holds |].
+  split; [exact FullDiagProofs.eval_full_erases_to_sp_holds |].
+  split; [exact FullDiagProofs.full_erases_to_sp_holds | exact FullDiagProofs.full_erases_to_build_holds].
+Qed.
+Print Assumptions C14_full_diagnostics_erase_to_the_spanned_builder.
+(* the widths a diagnostic prints are the widths the checker computes for the sub-expressions it
+   underlines; the "did you mean" hint is a declared name equal to the offending one up to ASCII
+   case - unique when there is one candidate, following the hash order when there are several
+   (the draft "independent of the order" is refuted: foo against Foo and FOO) *)
+Theorem C14_diagnostic_fields_are_the_checked_facts :
+  FullDiagSpec.stmt_check_full_widths /\ FullDiagSpec.stmt_check_full_expr_widths /\ FullDiagSpec.stmt_eval_full_errors /\
+  FullDiagSpec.stmt_full_widths /\ FullDiagSpec.stmt_close_name_sound /\ FullDiagSpec.stmt_close_name_unique /\
+  FullDiagSpec.stmt_eq_ignore_ascii_case /\ ~ FullDiagSpec.stmt_close_name_order_free.
+Proof.
+  split; [exact FullDiagProofs.check_full_widths_holds |].
+  split; [exact FullDiagProofs.check_full_expr_widths_holds |].
+  split; [exact FullDiagProofs.eval_full_errors_holds |].
+  split; [exact FullDiagProofs.full_widths_holds |].
+  split; [exact FullDiagProofs.close_name_sound_holds |].
+  split; [exact FullDiagProofs.close_name_unique_holds |].
+  split; [exact FullDiagProofs.eq_ignore_ascii_case_holds | exact FullDiagProofs.close_name_order_free_refuted].
+Qed.
+Print Assumptions C14_diagnostic_fields_are_the_checked_facts.
+(* END TO END, from the user's file to the text on standard error: every region of every
+   diagnostic - lexical, grammatical or from the builder - is headed by the user's file name and
+   shows a span of the user's text; the one exception is the second region of "redeclared" /
+   "constant assigned" about a name of the preamble *)
+Theorem C14_standard_error_regions_are_in_the_user_file :
+  FullDiagSpec.stmt_front_stderr_in_user_file /\ FullDiagSpec.stmt_front_stderr_shape.
+Proof. split; [exact FullDiagProofs.front_stderr_in_user_file_holds | exact FullDiagProofs.front_stderr_shape_holds]. Qed.
+Print Assumptions C14_standard_error_regions_are_in_the_user_file.
